@@ -12,7 +12,10 @@
                hashed, put into a set ...) and b a fresh object: the value semantics has no history
      "foreign" a, eq, ne, eq_r, ne_r                      (right operand is not a maze)
      "dedup"   ms (list of mazes), hs_ok, set_res, set_n, dict_res, dict_first (0-based kept indices)
-     "ctor"    kind, R, C, start, end (requested), res, got_start, got_end
+     "ctor"    kind, R, C, start, end (requested), res, got_start, got_end; forms "alias_*" pass the caller's own
+               mutable objects and OVERWRITE them after the call, before got_* are read: + argmod (an argument
+               differed from its snapshot right after the call), hstable (hash before = hash after the
+               overwrite), sol_kept (the solution held afterwards is the requested one)
      "ds"      ca, cb (compared cfg fields incl. applied filters), na, nb (n_mazes), ceq (real cfg == cfg),
                ma, mb (the CURRENT maze lists), eq, ne, eq_r, ne_r, eq2, eq_r2
      "build"   kind, conn, start, end, sol, res: a maze of the scope could NOT be constructed (res = the exception)
@@ -22,6 +25,8 @@ EXTENDS MazeValue
 Log == ndJsonDeserialize(IOEnv.VERIF_LOG)
 
 IsBool(x) == x \in {"True", "False"}
+\* optional boolean fields (second audit): absent = the default
+Flag(r, f, dflt) == IF f \in DOMAIN r THEN r[f] ELSE dflt
 Truth(x) == x = "True"
 If(c, name) == IF c THEN {name} ELSE {}
 
@@ -44,11 +49,13 @@ PairClauses(r) ==
   \cup (IF r.dict_res # "ok" THEN {"dict_raises"} ELSE If(r.dict_n # (IF e THEN 1 ELSE 2), "dict_dedup"))
   \cup If(~(EndsInGrid(r.a) /\ EndsInGrid(r.b)), "holds_end_outside_grid")
   \cup If(r.exp # e, "M:scope_label")
+  \cup If(Flag(r, "amod", FALSE), "M:operand_changed_by_comparison")
 
 ForeignClauses(r) ==
   If(~(IsBool(r.eq) /\ IsBool(r.eq_r) /\ IsBool(r.ne) /\ IsBool(r.ne_r)), "eq_raises")
   \cup If((IsBool(r.eq) /\ Truth(r.eq)) \/ (IsBool(r.eq_r) /\ Truth(r.eq_r)), "eq_truth_table")
   \cup If((IsBool(r.ne) /\ ~Truth(r.ne)) \/ (IsBool(r.ne_r) /\ ~Truth(r.ne_r)), "ne_truth_table")
+  \cup If(Flag(r, "amod", FALSE), "M:operand_changed_by_comparison")
 
 DedupClauses(r) ==
   LET keep == FirstOccurrences(r.ms) IN
@@ -64,8 +71,13 @@ CtorClauses(r) ==
     If(want # "ok", "accepts_end_outside_grid")
     \cup If(~(InGridCell(r.R, r.C, r.got_start) /\ InGridCell(r.R, r.C, r.got_end)), "holds_end_outside_grid")
     \cup If(~(r.got_start = r.start /\ r.got_end = r.end), "M:ends_not_as_given")
-  ELSE IF want = "ok" THEN {"rejects_end_inside_grid"}
-  ELSE If(r.res # want, "wrong_exception_type")
+    \* aliasing forms: the caller overwrote ITS OWN argument objects after the call (the maze was never touched):
+    \* got_start / got_end above are read after that; the hash taken before and after must be the same
+    \cup If(~Flag(r, "hstable", TRUE), "hash_changes_over_time")
+    \cup If(~Flag(r, "sol_kept", TRUE), "M:solution_not_as_given")
+    \cup If(Flag(r, "argmod", FALSE), "M:constructor_modified_argument")
+  ELSE (IF want = "ok" THEN {"rejects_end_inside_grid"} ELSE If(r.res # want, "wrong_exception_type"))
+       \cup If(Flag(r, "argmod", FALSE), "M:constructor_modified_argument")
 
 \* configuration equality: the compared fields decide; when ONLY n_mazes differs the property does not
 \* say (the code documents n_mazes as not compared) and the configuration's own == is taken
